@@ -506,8 +506,11 @@ func cmdCheck(res *vs.Result, user any) []vs.Violation {
 		if ti < 0 {
 			if !errors.Is(err, service.ErrNotExistKey) {
 				add("absent-key", fmt.Sprintf("%s: command for a key that is not online returned %v, want ErrNotExistKey", c.Name, err))
-			} else if c.TimeoutMs > 0 && c.ClockDone-c.ClockStart >= int64(c.TimeoutMs)*1e6 {
-				// "at once": the refusal must not be the product of waiting out the command's own timeout
+			} else if c.TimeoutMs > 0 && res.TimerEarly == 0 && c.ClockDone-c.ClockStart >= int64(c.TimeoutMs)*1e6 {
+				// "at once": the refusal must not be the product of waiting out the command's own timeout. Judged only in
+				// executions where no timer fired while another thread could run: there the virtual clock moves only when
+				// everything waits, so a refusal that needs no waiting takes no virtual time (with an early timer - an
+				// unrelated command's timeout, say - the clock jumps although nobody waited for it)
 				add("absent-key-not-at-once", fmt.Sprintf("%s: command for a key that is not online returned ErrNotExistKey only after %d ms of virtual time (its timeout is %d ms)", c.Name, (c.ClockDone-c.ClockStart)/1e6, c.TimeoutMs))
 			}
 			continue
